@@ -11,6 +11,10 @@ Three monitored families:
        process state (they depend only on the seed).
  proc  small classic and JAX workloads run >=3 times in fresh interpreter processes with
        different PYTHONHASHSEED values: sha256 digests of all results must be identical.
+ hist  a JAX optimize_kl run executed after 1-2 other runs on the same likelihood object in one
+       process (other point-estimate patterns given as boolean Vector or key tuple, other sample
+       counts / modes) must be bit-identical to the same run alone in a fresh process and agree
+       with jit=False up to round-off (stale compiled executables, leaked module state).
  maps  JAX optimize_kl under (residual_map, kl_map, jit) settings with solvers pinned to
        fixed iteration counts: final samples agree to 1e-6 * scale (observed round-off level: <= 3e-8).
 """
@@ -34,7 +38,7 @@ META = dict(
                  "push/pop are generated balanced (try/finally); unbalanced use is documented user error",
                  "single-threaded XLA/BLAS in all processes"],
     need=["context_exits_checked", "exception_exits_checked", "context_draw_replays", "process_runs",
-          "digest_sets_compared", "map_settings_compared"],
+          "digest_sets_compared", "map_settings_compared", "history_pairs_compared"],
     quick=dict(cases=480, workers=8, budget_s=80),
     thorough=dict(cases=6000, workers=16, budget_s=1200),
     design_ref="DESIGN.md §5 C21",
@@ -337,9 +341,64 @@ def maps_case(ck, rng, i):
                      base=base)
 
 
+def gen_hist_cfg(rng):
+    pes = [[], ["amp"], ["xi"]][int(rng.integers(0, 3))]
+    return dict(point_estimates=pes, pe_form=("bool_vector", "keys")[int(rng.integers(0, 2))],
+                n_samples=int(rng.integers(1, 3)), jit=True, key=int(rng.integers(1, 1000)),
+                sample_mode=("linear_resample", "nonlinear_resample")[int(rng.integers(0, 2))])
+
+
+def hist_case(ck, rng, i):
+    """history independence: the last run of a sequence of runs in one process must be bit-identical
+    to the same run alone in a fresh process, and agree with jit=False up to round-off"""
+    from vf.runner import Skip
+    target = gen_hist_cfg(rng)
+    if not target["point_estimates"]:
+        target["point_estimates"] = ["xi"]
+    earlier = []
+    for _ in range(int(rng.integers(1, 3))):
+        c = gen_hist_cfg(rng)
+        if rng.integers(0, 2):      # same form and shapes as the target, different pattern
+            c["pe_form"] = target["pe_form"]
+            c["point_estimates"] = ["amp"] if target["point_estimates"] == ["xi"] else ["xi"]
+            c["n_samples"] = target["n_samples"]
+            c["sample_mode"] = target["sample_mode"]
+        earlier.append(c)
+    base = dict(model_seed=int(rng.integers(1, 100)))
+    ck.note(dict(family="hist", earlier=earlier, target=target), nontrivial=True, klass="hist")
+    try:
+        alone, rc1, e1 = run_repro("re_history", dict(base, history=[target]), 0, 900)
+        after, rc2, e2 = run_repro("re_history", dict(base, history=earlier + [target]), 0, 900)
+        nojit, rc3, e3 = run_repro("re_history", dict(base, history=[dict(target, jit=False)]), 0, 900)
+    except subprocess.TimeoutExpired:
+        raise Skip("child timed out")
+    ck.hit("process_runs", 3)
+    if alone is None or after is None or nojit is None:
+        ck.violation("history-run-raises", f"optimize_kl failed: {(e1 or e2 or e3)[-400:]}",
+                     earlier=earlier, target=target)
+        return
+    ck.hit("history_pairs_compared")
+    if alone["digest"] != after["digest"]:
+        dev = max(float(np.max(np.abs(np.asarray(a) - np.asarray(b)))) for a, b in
+                  zip(alone["values"], after["values"]))
+        ck.violation(f"result-depends-on-earlier-runs:pe_form={target['pe_form']}",
+                     f"the same run (same seed) gives different results after earlier runs in the same "
+                     f"process than alone in a fresh process (max deviation {dev:.3g})",
+                     earlier=earlier, target=target)
+    worst = 0.0
+    for a, b in zip(alone["values"], nojit["values"]):
+        a, b = np.asarray(a), np.asarray(b)
+        worst = max(worst, float(np.max(np.abs(a - b))) / max(float(np.max(np.abs(a))), 1e-3))
+    if worst > 1e-6:
+        ck.violation(f"result-depends-on-jit:pe_form={target['pe_form']}",
+                     f"jit=True and jit=False differ by {worst:.3g} relative", target=target)
+
+
 def case(ck, i):
     rng = ck.rng()
     fam = i % PERIOD
+    if fam == 2:
+        return hist_case(ck, rng, i)
     if fam == 0:
         proc_case(ck, rng, i)
     elif fam == 1:
